@@ -187,21 +187,32 @@ def add_unique(ctx):
                    for i in range(len(pairs)) for j in range(i)]))
 
 
-@proof("C07", "EdgeList.add/same-geometric-edge-twice", cases=[(k1, k2) for k1 in ("arc", "spline", "project") for k2 in ("arc", "spline", "line")],
-       functions=[EL + "add"], note="two operations define the same geometric edge (in opposite directions)")
+@proof("C07", "EdgeList.add/same-geometric-edge-twice", cases=[(k1, k2) for k1 in ("arc", "spline", "project", "line") for k2 in ("arc", "spline", "line")],
+       functions=[EL + "add"], note="two operations define the same geometric edge (in opposite directions); a straight line is no definition: "
+                                    "a curved edge given after it is kept")
 def add_twice(ctx):
     k1, k2 = ctx.case
     v = [Vertex(ctx.vec("p"), 3), Vertex(ctx.vec("q"), 8)]
     ctx.assume(G.dot(v[0].position - v[1].position, v[0].position - v[1].position) > 0.01)
     el = EdgeList()
-    d1 = token(ctx, k1, 0) if k1 != "arc" else E.Arc(ctx.vec("m"))
+    d1 = E.Line() if k1 == "line" else (token(ctx, k1, 0) if k1 != "arc" else E.Arc(ctx.vec("m")))
     if k1 == "arc":
         # not collinear
         c = G.cross(v[0].position - d1.point.position, v[1].position - d1.point.position)
         ctx.assume(G.dot(c, c) > 0.01)
-    d2 = E.Line() if k2 == "line" else token(ctx, k2, 1)
+    d2 = E.Line() if k2 == "line" else (E.Arc(ctx.vec("m2")) if (k1, k2) == ("line", "arc") else token(ctx, k2, 1))
+    if k1 == "line" and k2 == "arc":
+        c2 = G.cross(v[1].position - d2.point.position, v[0].position - d2.point.position)
+        ctx.assume(G.dot(c2, c2) > 0.01)     # the arc is a valid one (not collinear)
     e1 = el.add(v[0], v[1], d1)
     e2 = el.add(v[1], v[0], d2)
+    if k1 == "line":
+        if k2 == "line":
+            ctx.prove("two-lines-write-nothing", len(el.edges) == 0)
+        else:
+            ctx.prove("curved-edge-after-a-line-is-kept", len(el.edges) == 1 and el.edges[0] is e2 and e2.data is d2)
+            ctx.prove("and-found-for-that-vertex-pair", el.find(v[0], v[1]) is e2)
+        return
     ctx.prove("second-definition-returns-the-first-edge", e2 is e1 and e1.data is d1)
     ctx.prove("written-once", len(el.edges) == 1 and el.edges[0] is e1)
 
